@@ -9,6 +9,7 @@ import (
 	"math"
 	"strconv"
 	"strings"
+	"testing/iotest"
 
 	"github.com/polydawn/refmt/json"
 	"github.com/polydawn/refmt/tok"
@@ -16,7 +17,17 @@ import (
 
 // decodeItems decodes up to max successive items from one reader with one decoder (Reset between items).
 func decodeJsonItems(in []byte, max int) (results []string, firstToks []tok.Token, firstOK bool, restAfterFirst int) {
-	rd := bytes.NewReader(in)
+	// delivered whole, a byte at a time, in halves, or with io.EOF arriving together with the last bytes — in
+	// rotation: what the text says does not depend on it (the consumed count comes from the decoder's own counter)
+	var rd io.Reader = bytes.NewReader(in)
+	switch len(in) % 4 {
+	case 1:
+		rd = iotest.OneByteReader(rd)
+	case 2:
+		rd = iotest.HalfReader(rd)
+	case 3:
+		rd = iotest.DataErrReader(rd)
+	}
 	dec := json.NewDecoder(rd)
 	restAfterFirst = -1
 	for i := 0; i < max; i++ {
